@@ -116,10 +116,21 @@ class WatermarkPoolSink(PoolSink):
       self._current_size += 1
       self._varz.size(self._current_size)
       sink = self._sink_provider.CreateSink(self._properties)
+      # Subscribe before opening so that a fault raised by a failing Open() is
+      # propagated as well.
+      sink.on_faulted.Subscribe(self.__PropagateShutdown)
       # TODO: we could get a better failure case here by detecting that Open()
       # failed and retrying, however for now the simplest option is to just fail.
-      sink.Open().wait()
-      sink.on_faulted.Subscribe(self.__PropagateShutdown)
+      try:
+        sink.Open().get()
+      except Exception:
+        self._current_size -= 1
+        self._varz.size(self._current_size)
+        self._DiscardSink(sink)
+        # A connection that can not be opened is treated like one found dead
+        # on release: the pool shuts down, failing any waiters.
+        self.Close()
+        raise
       return sink
     else:
       if len(self._waiters) + 1 > self._max_queue_size:
